@@ -90,7 +90,8 @@ def gen_case(seed, idx):
     if clash and clash in [m["name"] for m in w["mods"][:zsplit]]:
         clash = None
     return {"idx": idx, "world": w, "split": k, "zsplit": zsplit, "clash": clash, "history": hist,
-            "b_refs": rng.random() < 0.8, "url_trailing_slash": rng.random() < 0.5}
+            "b_refs": rng.random() < 0.8, "url_trailing_slash": rng.random() < 0.5,
+            "local_abs": rng.random() < 0.3, "b_cwd": rng.choice(["proj", "proj", "parent"])}
 
 
 def a_exports(case):
@@ -375,6 +376,14 @@ def check_i3(case, root):
                 findings.append(("I3/%s/%s" % (key, "leak" if extra else "lost"),
                                  "modules.json: module %s exports %s %s, the reference model says %s (extra %s, missing %s)"
                                  % (m["name"], key, have, wantn, extra, lost)))
+        # the nested entity lists of an exported module must not describe private entities either
+        private = {e["name"].lower() for e in m["ents"] if usemodel.effective_access(m, e) == "private"}
+        for key in ("functions", "subroutines", "interfaces", "absinterfaces", "types", "variables"):
+            names = {str(x.get("name", "")).lower() for x in (j.get(key) or []) if isinstance(x, dict)}
+            leak = sorted(names & private)
+            if leak:
+                findings.append(("I3/nested-private-leak/%s" % key,
+                                 "modules.json: module %s describes its private entities %s in '%s'" % (m["name"], leak, key)))
     return findings
 
 
@@ -420,11 +429,12 @@ def text_digest(bdoc):
 
 
 # ---------------------------------------------------------------------- runs
-def run_ford(root, proj, opts, body, workdir, tag, net=None, clock_seed=0):
+def run_ford(root, proj, opts, body, workdir, tag, net=None, clock_seed=0, from_parent=False):
     pdir = os.path.join(root, proj)
     with open(os.path.join(pdir, "proj.md"), "w") as f:
         f.write(project_file(opts, body))
-    spec = {"sandbox": root, "cwd": pdir, "argv": ["ford", "proj.md"], "mode": "full", "order_plan": {"mode": "sorted"},
+    cwd, pf = (root, proj + "/proj.md") if from_parent else (pdir, "proj.md")
+    spec = {"sandbox": root, "cwd": cwd, "argv": ["ford", pf], "mode": "full", "order_plan": {"mode": "sorted"},
             "dir_order": "sorted", "clock": {"seed": clock_seed}, "net": net}
     return O.run_cold(spec, workdir, hashseed=0, tag=tag)
 
@@ -508,14 +518,16 @@ def evaluate(case, seed, workdir, history=None):
             via = arg
             if op == "buildB":
                 if via == "local":
-                    o["external"] = "a = ../pub"
+                    # the local path as a user would write it: relative to the project file, or absolute
+                    o["external"] = "a = " + (os.path.join(root, "pub") if case.get("local_abs") else "../pub")
                 else:
                     # the URL as a user would write it, with or without the trailing slash
                     o["external"] = "a = " + (URL if case.get("url_trailing_slash", True) else URL.rstrip("/"))
                     net = {"routes": [{"prefix": URL, "dir": os.path.join(root, "pub")}]}
                     if armed:
                         net["fault"] = {"kind": armed}
-            r = run_ford(root, "B", o, bbody, wk, "B%d" % step, net=net, clock_seed=step)
+            r = run_ford(root, "B", o, bbody, wk, "B%d" % step, net=net, clock_seed=step,
+                         from_parent=(case.get("b_cwd") == "parent"))
             out["n"] += 1
             fault_now = armed if (op == "buildB" and via == "remote") else None
             if op == "buildB" and via == "remote":
@@ -602,6 +614,14 @@ def candidates(case):
         c = copy.deepcopy(case)
         c["b_refs"] = False
         yield "no refs", c
+    if case.get("local_abs"):
+        c = copy.deepcopy(case)
+        c["local_abs"] = False
+        yield "relative local path", c
+    if case.get("b_cwd") == "parent":
+        c = copy.deepcopy(case)
+        c["b_cwd"] = "proj"
+        yield "cwd = project dir", c
     for i, (op, arg) in enumerate(h):
         if op == "buildA":
             for k2, v in sorted(arg.items()):
